@@ -25,7 +25,7 @@ R_ALL = ["R1-comment", "R2-blank-lines", "R3-indent", "R4-spacing", "R5-crlf", "
          "R8-semicolons", "R9-end-added", "R9-end-removed", "R10-bom", "R11-multifile", "R12-file-vs-string"]
 REQUIRED = {**{r: 10 for r in R_ALL}, "isolated:R5-crlf": 2, "isolated:R10-bom": 2, "isolated:R8-semicolons": 2, "isolated:R6-wrap": 2, "isolated:R7-comma": 2,
             "isolated:R1-comment": 2, "isolated:R11-multifile": 2, "isolated:R9-end-added": 2,
-            "crlf+wrapped-params": 5, "bom-on-later-file": 3, "bom-on-first-file": 3, "multifile-end-in-every-file": 3, "multifile-no-trailing-newline": 3, "multifile-end-line-variants": 5,
+            "crlf+wrapped-params": 5, "bom-on-later-file": 3, "bom-on-first-file": 3, "multifile-end-in-every-file": 3, "multifile-no-trailing-newline": 3, "multifile-end-line-variants": 5, "multifile-crlf-end-line": 3,
             "master-file-variant": 2, "corpus-base": 20, "generated-base": 20, "snapshot-with-chains": 20}
 ASSUMPTIONS = ["parameter-list wrapping only on non-empty lists; file splits only between top-level statements; string inputs end with a newline",
                "warnings are recorded, not compared; absent parameter list '' == []"]
@@ -56,7 +56,9 @@ def parse_variant(variant, um):
     """variant: {"mode": "string", "text": ...} or {"mode": "files", "files": [bytes-as-str...], "bom": [bool...]}"""
     if variant["mode"] == "string":
         return snapshot.make_parser(variant["text"], None, um)
-    d = tempfile.mkdtemp(prefix="c02-", dir=core.WORK)
+    # always the same directory and file names within one worker: paths are re-used with new content from variant to variant
+    d = os.path.join(os.environ.get("VMON_RUN_DIR") or core.WORK, f"c02-{os.getpid()}")
+    os.makedirs(d, exist_ok=True)
     try:
         paths = []
         for i, (content, bom) in enumerate(zip(variant["files"], variant["bom"])):
@@ -66,7 +68,7 @@ def parse_variant(variant, um):
             paths.append(pth)
         return snapshot.make_parser(None, paths, um)
     finally:
-        shutil.rmtree(d, ignore_errors=True)
+        pass
 
 
 def make_variant(ctx, text, items, um, force=None):
@@ -139,9 +141,12 @@ def make_variant(ctx, text, items, um, force=None):
     files, boms = [], []
     for i, part in enumerate(parts):
         if every_end or rng.random() < 0.3:
+            enl = "\r\n" if (crlf is True or (crlf == "mixed" and rng.random() < 0.5)) else "\n"
             if not part.rstrip(" \t").endswith("\n"):
-                part += "\n"
-            part += rng.choice(["End", "End", "End ", "  End", "End # done", "End\t#x", "\tEnd  # End of part"]) + "\n"
+                part += enl
+            part += rng.choice(["End", "End", "End ", "  End", "End # done", "End\t#x", "\tEnd  # End of part"]) + enl
+            if enl == "\r\n":
+                ctx.hit("multifile-crlf-end-line")
             ctx.hit("multifile-end-line-variants")
         if rng.random() < 0.3 and part.endswith("\n") and not part.endswith("\n\n") and force is None:
             part = part[:-2] if part.endswith("\r\n") else part[:-1]
